@@ -548,6 +548,22 @@ def parse_mir(text):
         if mc:
             # `const NAME: usize = const 32_usize;` (a literal constant item, e.g. a `const` inside a function)
             funcs.consts[mc.group(1).split('::')[-1]] = mc.group(2).strip()
+        mb = re.match(r'^const ([\w:<>, ]+): [^=]+ = \{$', ln)
+        if mb:
+            # `const NAME: T = { ... _0 = callee(const lit, ..) ... }`: a constant item initialised by ONE call with
+            # literal arguments (e.g. Duration::from_secs(10)); kept as ('call', callee, [literals])
+            j = i + 1
+            body = []
+            while j < n and lines[j] != '}':
+                body.append(lines[j].strip())
+                j += 1
+            calls = [b for b in body if re.match(r'^_0 = .*\(.*\) -> ', b)]
+            stmts = [b for b in body if re.match(r'^_\d+ = ', b)]
+            if len(calls) == 1 and len(stmts) == 1:
+                mcall = re.match(r'^_0 = (.*?)\((.*)\) -> ', calls[0])
+                argl = [a.strip() for a in mcall.group(2).split(',') if a.strip()]
+                if all(a.startswith('const ') for a in argl):
+                    funcs.consts[mb.group(1).split('::')[-1]] = ('call', mcall.group(1), [a[6:] for a in argl])
         if ln.startswith('fn ') and ln.rstrip().endswith('{'):
             start = i
             j = i + 1
